@@ -305,6 +305,9 @@ def main():
 
 
 def replay(d):
+    if (d.get('obligation') or '').startswith('Coord'):
+        from . import coordlib
+        return coordlib.replay_wiring(d['obligation'])
     from bounded import C01 as b
     fi = d.get('failing_input') or {}
     return b.replay_case(d.get('check'), fi.get('input', fi))
